@@ -96,16 +96,105 @@ def bytesIsNil : GoVal → Bool
   | .bytes _ isNil _ => isNil
   | _ => true
 
+/-- the elements of the array / the fields of the struct a destination holds -/
+def partsOf : GoVal → List GoVal
+  | .array vs => vs
+  | .struct vs => vs
+  | .udtstruct _ vs => vs
+  | _ => []
+
+/-- unmarshalList's element loop on an ARRAY target: `Unmarshal(elem, item, rv.Index(i).Addr())` — element `i` of
+    the array the destination already holds is the target of the call (`f item prev_i`) -/
+def elemsInto (p : Nat) (f : Option Bytes → GoVal → URes) : Nat → Bytes → List GoVal → LRes (List GoVal)
+  | 0, b, _ => .ok [] b
+  | n+1, b, prevs => match readCollItem p b with
+    | none => .err
+    | some (item, r) => (match f item (prevs.headD .nil) with
+        | .ok v => (match elemsInto p f n r prevs.tail with
+            | .ok vs r' => .ok (v :: vs) r'
+            | other => other)
+        | .err => .err | .crash => .crash | .unmodelled => .unmodelled)
+
+mutual
 /-- `Unmarshal(info, data, &x)` where `x` (Go type `ty`) currently holds `prev`.
-    unmarshalVarchar, `case *[]byte`: `if data != nil { *v = append((*v)[:0], data...) } else { *v = nil }` —
-    appending nothing to `(*v)[:0]` gives nil exactly when `*v` was nil: an EMPTY cell leaves a nil destination
-    nil and makes a non-nil destination empty. Every other (column type, Go type) assigns a value built from
-    `data` alone. -/
+    * `**T`: unmarshalNullable builds a new `*T` (or nil) — nothing of `prev` survives;
+    * unmarshalVarchar, `case *[]byte`: `if data != nil { *v = append((*v)[:0], data...) } else { *v = nil }` —
+      appending nothing to `(*v)[:0]` gives nil exactly when `*v` was nil: an EMPTY cell leaves a nil destination nil
+      and makes a non-nil destination empty;
+    * list / set into `*[n]T`: the elements are unmarshalled in place, each seeing the element it replaces;
+    * UDT into a struct: the fields are unmarshalled in place, in the order of the value's fields; a value with
+      FEWER fields than the type (`len(data) == 0` before the type's fields are exhausted) returns nil there and
+      leaves the remaining fields of the struct as they were;
+    * every other (column type, Go type): a value built from `data` alone is assigned (MarshalDecode.unmarshalBase). -/
+def intoBase (p : Nat) (t : CqlTy) (ty : GoTy) (data : Option Bytes) (prev : GoVal) : URes :=
+  match ty with
+  | .ptr _ => withPtr (unmarshalBase p t) ty data
+  | .bytes false =>
+    if textFamily t then
+      (match data with
+       | some [] => .ok (.bytes false (bytesIsNil prev) [])
+       | _ => unmarshalBase p t ty data)
+    else unmarshalBase p t ty data
+  | .array len g =>
+    (match t, data with
+     | .list et, some d =>
+       (match readCollSize p d with
+        | none => .err
+        | some (n, r) => if n ≠ len then .err else
+          (match elemsInto p (intoBase p et g) n.toNat r (partsOf prev) with
+           | .ok vs _ => .ok (.array vs)
+           | .err => .err | .crash => .crash | .unmodelled => .unmodelled))
+     | .set et, some d =>
+       (match readCollSize p d with
+        | none => .err
+        | some (n, r) => if n ≠ len then .err else
+          (match elemsInto p (intoBase p et g) n.toNat r (partsOf prev) with
+           | .ok vs _ => .ok (.array vs)
+           | .err => .err | .crash => .crash | .unmodelled => .unmodelled))
+     | _, _ => unmarshalBase p t ty data)
+  | .udtstruct fnames gs =>
+    (match t with
+     | .udt names ts =>
+       if dataBytes data = [] then .ok (.udtstruct fnames (zeroOfs gs)) else
+       (match udtInto p names ts fnames gs (dataBytes data) (partsOf prev) with
+        | .ok vs _ => .ok (.udtstruct fnames vs)
+        | .err => .err | .crash => .crash | .unmodelled => .unmodelled)
+     | _ => unmarshalBase p t ty data)
+  | .struct gs =>
+    (match t with
+     | .udt names ts =>
+       -- no cql tags and no field named like a UDT field: every field of the value is read and skipped
+       if dataBytes data = [] then .ok (.struct (zeroOfs gs)) else
+       (match udtInto p names ts [] gs (dataBytes data) (partsOf prev) with
+        | .ok vs _ => .ok (.struct vs)
+        | .err => .err | .crash => .crash | .unmodelled => .unmodelled)
+     | _ => unmarshalBase p t ty data)
+  | _ => unmarshalBase p t ty data
+
+/-- the field loop of unmarshalUDT on a struct that holds `acc` -/
+def udtInto (p : Nat) : List String → List CqlTy → List String → List GoTy → Bytes → List GoVal → LRes (List GoVal)
+  | name :: names, t :: ts, fnames, gs, data, acc =>
+    if data = [] then .ok acc data
+    else if ValueSpec.shorter data 4 then .err
+    else (match readBytesM data with
+     | none => .err
+     | some (item, r) =>
+       (match lookupIdx name fnames 0 with
+        | none => udtInto p names ts fnames gs r acc
+        | some i => (match gs[i]? with
+          | none => udtInto p names ts fnames gs r acc
+          | some g => (match intoBase p t g item (acc.getD i .nil) with
+            | .ok v => udtInto p names ts fnames gs r (acc.set i v)
+            | .err => .err | .crash => .crash | .unmodelled => .unmodelled))))
+  | _, _, _, _, data, acc => .ok acc data
+end
+
+/-- `Unmarshal(info, data, &x)` where `x` currently holds `prev`; `t = none`: a column type Unmarshal's switch has no
+    case for -/
 def unmarshalInto (p : Nat) (t : Option CqlTy) (ty : GoTy) (data : Option Bytes) (prev : GoVal) : URes :=
-  match t, ty, data with
-  | some t, .bytes false, some [] =>
-    if textFamily t then .ok (.bytes false (bytesIsNil prev) []) else unmarshalFresh p (some t) ty data
-  | t, ty, data => unmarshalFresh p t ty data
+  match t with
+  | none => withPtr (fun _ _ => .err) ty data
+  | some t => intoBase p t ty data prev
 
 /-! ## the calls of a row applied to typed destinations -/
 
@@ -188,6 +277,7 @@ def scannerScanT (p : Nat) (s : Scanner) (tys : List GoTy) (vals : List GoVal) :
 
 /-! ## what the destinations hold before the first row -/
 
+mutual
 /-- `dirty`: a recognisable non-zero value of the Go type (the variables were used before: an earlier page, an earlier
     query); kinds without an entry start at their zero value. Mirrored by harness/cmd/c04/reuse.go `dirty`. -/
 def dirtyOf : GoTy → GoVal
@@ -202,6 +292,13 @@ def dirtyOf : GoTy → GoVal
   | .ptr t => .ptr (dirtyOf t)
   | .slice t => .slice false [dirtyOf t]
   | .map k v => .map false [(dirtyOf k, dirtyOf v)]
+  | .array n t => .array (List.replicate n (dirtyOf t))
+  | .struct ts => .struct (dirtyOfs ts)
+  | .udtstruct names ts => .udtstruct names (dirtyOfs ts)
   | t => zeroOf t
+def dirtyOfs : List GoTy → List GoVal
+  | [] => []
+  | t :: ts => dirtyOf t :: dirtyOfs ts
+end
 
 end RowsReuse
